@@ -281,6 +281,43 @@ Section Wf.
     intro Hin. destruct (label_items_ge _ _ _ _ _ _ Hin) as [j [Hj1 Hj2]]. inversion Hj1. lia.
   Qed.
 
+  Lemma entries_nodup children ot path groups :
+    (forall n, wf_completer (children n)) ->
+    NoDup (map fst groups) ->
+    NoDup (map e_path (flat_map errs_of (map snd (flat_map (s_entry S children ot path) groups)))).
+  Proof.
+    intros Hch Hg.
+    set (entries := flat_map (s_entry S children ot path) groups).
+    assert (Hnd : NoDup (map fst entries)) by (apply entries_keys_nodup; exact Hg).
+    set (lxs := map (fun kx => (PKey (fst kx), snd kx)) entries).
+    assert (Hsnd : map snd lxs = map snd entries).
+    { unfold lxs. rewrite map_map. reflexivity. }
+    rewrite <- Hsnd. apply (all_nodup path).
+    - unfold lxs. rewrite map_map. cbn [fst].
+      rewrite <- (map_map fst PKey). apply FinFun.Injective_map_NoDup; [|exact Hnd].
+      intros a b Hab. inversion Hab. reflexivity.
+    - unfold lxs. rewrite Forall_map. cbn [fst snd]. rewrite Forall_forall. intros kx Hkx.
+      unfold entries in Hkx. apply in_flat_map in Hkx as [kf [_ Hkx]].
+      unfold s_entry in Hkx. destruct (snd kf) as [|f fs]; [destruct Hkx|].
+      destruct (s_field_kind S ot (fn_name f)); cbn in Hkx.
+      + destruct Hkx as [<-|[]]. apply swf_ok.
+      + destruct Hkx as [<-|[]]. apply swf_ok.
+      + destruct Hkx as [<-|[]]. cbn [fst snd]. apply swf_position. apply Hch.
+      + destruct Hkx.
+  Qed.
+
+  Lemma items_nodup t fields path items i :
+    Forall wf_completer items ->
+    NoDup (map e_path (flat_map errs_of (s_items t fields path items i))).
+  Proof.
+    intro Hitems. rewrite s_items_labels. apply (all_nodup path).
+    - apply label_items_nodup.
+    - revert i. induction items as [|c r IHr]; intro i; [constructor|].
+      inversion Hitems as [|? ? Hc Hr]; subst.
+      cbn [label_items]. constructor; [|apply IHr; exact Hr].
+      cbn [fst snd]. apply swf_position. apply Hc.
+  Qed.
+
   Lemma swf_view (v : sview) :
     match sv_items v with Some items => Forall wf_completer items | None => True end ->
     (forall n, wf_completer (sv_field v n)) ->
